@@ -496,7 +496,7 @@ def find_impl(src, impl, rel):
     return j, end, impl.split()[-1], aliases
 
 
-def parse_fn(repo, rel, name, impl=None):
+def parse_fn(repo, rel, name, impl=None, pre=None):
     src = strip_comments(open(os.path.join(repo, rel)).read())
     lo, hi, selfty, aliases = 0, None, None, {}
     if impl is not None:
@@ -514,7 +514,7 @@ def parse_fn(repo, rel, name, impl=None):
         else: lo, hi, selfty, aliases = find_impl(src, impl, rel)
     off, line = find_fn(src, name, rel if impl is None else f"{rel} (impl {impl})", lo, hi)
     j = src.index("{", off); end = brace_block(src, j, f"fn {name} in {rel}")
-    toks = tokenize(src[off:end], line)
+    toks = tokenize(src[off:end] if pre is None else pre(src[off:end], name), line)      # `pre` (phase 4k): table-declared text rewrite (float erasure)
     p = Parser(toks, name)
     fn = p.fn_item()
     end_line = toks[p.i - 1][2]
@@ -994,6 +994,11 @@ class FnLower:
                     ix = tab_index(e[2][1], ent)
                     if ix is None: self.fail(f"extern `{ent['call']}`: second argument is not `&{ent['tables']}[i]`")
                     return (ent, ix, e[2][0], False)
+        if e[0] == "call" and len(e[2]) == 1:
+            # phase 4k: a free function of ONE `&[u64]` argument returning a u64 (`F : List Nat -> Nat`): stands for a float computation erased by
+            # the table (`pre_text`), e.g. `round_q(&temp[a..b])`
+            for ent in exts:
+                if ent.get("fcall") == "::".join(e[1]): return (ent, None, e[2][0], "fcall")
         if e[0] == "mcall" and len(e[3]) == 1:
             for ent in exts:
                 if ent.get("mcall") == e[2]:
@@ -1011,7 +1016,7 @@ class FnLower:
         return None
 
     RCALL_TY = "List Nat → List Nat → R (List Nat)"
-    def ext_ty(self, ent): return self.RCALL_TY if "rcall" in ent else self.EXTERN_TY
+    def ext_ty(self, ent): return self.RCALL_TY if "rcall" in ent else "List Nat → Nat" if "fcall" in ent else self.EXTERN_TY
 
     def ex_m(self, e, env, ops):
         k = e[0]
@@ -1612,6 +1617,10 @@ class FnLower:
     def extern_call(self, exn, env, ops):
         ent, ixe, data, recv_first = exn
         cell = {}
+        if recv_first == "fcall":                        # phase 4k: pure function of one slice
+            v = self.list_arg(data, env, ops, f"extern {ent['binder']}")
+            self.extern_used.add(ent["binder"])
+            return ("v", Val(f"({ent['binder']} {v.atom})", "u64", set(v.deps) | {ent["binder"]}))
         if recv_first == "rcall":                        # phase 4f: `recv.method(&input, &mut output)`; arguments in evaluation order
             def th_in(): return self.list_arg(data[0], env, ops, f"extern {ent['binder']}")
             def th_out():
@@ -1953,6 +1962,14 @@ class FnLower2(FnLower):
             env[pat] = Var("cr", self.modvar(i0[1], env), rust=pat); return
         if i0[0] == "path" and len(i0[1]) == 1 and i0[1][0] in env and env[i0[1][0]].kind in ("mod", "mulop", "cr", "list", "modlist", "moplist"):
             env[pat] = env[i0[1][0]]; return
+        # phase 4k: `let row = self.matrix[i].as_slice();` / `= &self.matrix[i];`: a read-only row of an abstracted `Vec<Vec<u64>>` (bounds-checked here)
+        r0 = i0
+        if r0[0] == "mcall" and r0[2] == "as_slice" and not r0[3]: r0 = strip_paren(r0[1])
+        if r0[0] == "ref" and not r0[1]: r0 = strip_paren(r0[2])
+        ai0 = self.abs_indexed(r0, env, mark=False) if getattr(self, "abs", None) else None
+        if ai0 is not None and ai0[0][1] == "List (List Nat)" and not mut and pat not in self.strictly_assigned:
+            rv = self.list_arg(r0, env, ops, f"`let {pat}`")
+            env[pat] = Var("list", rv.atom, rust=pat); return
         n = self.newvar(pat)
         if i0[0] == "vec" and not i0[1] and pat in self.ilist_vars:       # phase 4d: `let mut res = vec![]` of the returned `Vec<i32>`
             ops.append(("let", f"{n} : List Int", "[]")); env[pat] = Var("ilist", n, rust=pat); return
@@ -2640,7 +2657,7 @@ class FnTranslate(FnLower2):
             if pt[0] == "selfty":
                 st = self.tr.structs.get(fn["selfty"])
                 if st is None:
-                    if not self.abs: self.fail(f"`self` of unregistered struct {fn['selfty']} (and no abstraction table)")
+                    if not self.abs and not self.opts.get("extern"): self.fail(f"`self` of unregistered struct {fn['selfty']} (and no abstraction table)")      # (phase 4k: an `extern` table alone also makes `self` a handle)
                     params.append(("handle",)); env[pn] = Var("handle", "self", rust=pn); np -= 1; self.namemap.pop(); continue
                 if pt[1] == "val": self.fail("by-value `self`")
                 params.append(("structmut" if pt[1] == "mut" else "struct", fn["selfty"]))
@@ -3175,7 +3192,7 @@ class Translator:
         for ent in spec["table"]:
             try:
                 if "struct" in ent: out.append(self.struct_entry(ent)); continue
-                fn = parse_fn(self.repo, ent["file"], ent["fn"], ent.get("impl"))
+                fn = parse_fn(self.repo, ent["file"], ent["fn"], ent.get("impl"), ent.get("pre_text"))
                 out.append(FnTranslate(self, fn, ent).translate())
             except Unsupported as ex:
                 raise Unsupported(f"rs2lean: {ent['file']}: {'fn ' + ent['fn'] if 'fn' in ent else 'struct ' + ent['struct']}: {ex}")
